@@ -3,7 +3,7 @@ import Dashu.Model.Cross.Num
   C14 — `NumHash`: what is fed to the `Hasher`.
 
   Every impl ends in exactly one `write_i128(v)` (`i128::hash`), i.e. one `Hasher::write` of the 16
-  little-endian bytes of `v`; `numHashFeed` is that `v`.
+  little-endian bytes of `v`; `numHashFeedPre` is that `v`.
 
   `FixedMersenneInt<127,1>` (crate num-modular) is used at its specification: residues mod
   `M = 2^127 - 1`, `convert` = reduce, `pow` = modular power, `inv` = THE inverse (unique in
@@ -57,8 +57,9 @@ def floatHash (B : Nat) (s e : Int) : Int :=
   let hash : Int := ((signifHash * expHash % M127 : Nat) : Int)
   i128NumHash (if signifResidue < 0 then -hash else hash)
 
-/-- `impl NumHash for Repr` (rational): `±INF` constants when `M | denominator` -/
-def ratHash (n : Int) (d : Nat) : Int :=
+/-- `impl NumHash for Repr` (rational) BEFORE fix 3c2d452 — also the body the current code runs once no
+    common factor `M` is left: `±INF` constants when `M | denominator` -/
+def ratHashPre (n : Int) (d : Nat) : Int :=
   let ub := d % M127
   if ub = 0 then
     (if n > 0 then i128NumHash ((2 : Int) ^ 127 - 1) else i128NumHash (-((2 : Int) ^ 127 - 1)))
@@ -75,11 +76,11 @@ def stripM : Nat → Int → Nat → Int × Nat
     if n ≠ 0 ∧ d % M127 = 0 ∧ n % (M127 : Int) = 0 then stripM fuel (n / (M127 : Int)) (d / M127)
     else (n, d)
 
-/-- REQUIRED rational hash: the hash of the value — `ratHash` after cancelling common factors `M`
-    (equal to `ratHash` unless `M` divides both stored parts; see `Props/C14`) -/
-def ratHashCanon (n : Int) (d : Nat) : Int :=
+/-- REQUIRED rational hash: the hash of the value — `ratHashPre` after cancelling common factors `M`
+    (equal to `ratHashPre` unless `M` divides both stored parts; see `Props/C14`) -/
+def ratHash (n : Int) (d : Nat) : Int :=
   let p := stripM (bitLen d) n d
-  ratHash p.1 p.2
+  ratHashPre p.1 p.2
 
 /-- num-order `FloatHash::fhash` for f32/f64 followed by `i128::num_hash` -/
 def primFloatHash (t : FloatTy) (bits : Nat) : Int :=
@@ -98,13 +99,14 @@ def primFloatHash (t : FloatTy) (bits : Nat) : Int :=
     let v : Nat := (mantissa % M127) * pow % M127
     i128NumHash (if signBit = 0 then (v : Int) else -(v : Int))
 
-/-- the `i128` written to the hasher by `num_hash` -/
-def numHashFeed : Num → Int
+/-- the `i128` written to the hasher by `num_hash` BEFORE fix 3c2d452 (differs from `numHashFeed`
+    only for a rational with both stored parts divisible by `M`) -/
+def numHashFeedPre : Num → Int
   | .ubig n => ubigHash n
   | .ibig i => ibigHash i
   | .fbig B s e _ => floatHash B s e
-  | .rbig n d => ratHash n d
-  | .relaxed n d => ratHash n d
+  | .rbig n d => ratHashPre n d
+  | .relaxed n d => ratHashPre n d
   | .pint t v =>
       match t with
       | .i128 => i128NumHash v
@@ -112,10 +114,10 @@ def numHashFeed : Num → Int
       | _ => v                       -- `(*self as i128).hash(state)`; usize/isize via u64/i64
   | .pfloat t b => primFloatHash t b
 
-/-- REQUIRED feed: a function of the value for every finite number (theorem `hash_canon_value`) -/
-def numHashFeedCanon : Num → Int
-  | .rbig n d => ratHashCanon n d
-  | .relaxed n d => ratHashCanon n d
-  | x => numHashFeed x
+/-- the `i128` written to the hasher by `num_hash` (current code) -/
+def numHashFeed : Num → Int
+  | .rbig n d => ratHash n d
+  | .relaxed n d => ratHash n d
+  | x => numHashFeedPre x
 
 end Dashu.Model.Cross
